@@ -238,7 +238,13 @@ def run_and_judge(D, R, cols, names, fields, eps, tc, report, sub,
             present = f in fams
             fam = fams.get(f)
             col = pycols.get(f, [])
-            want = M.sat(kind, model_value(kind, e['val']), col, fam,
+            mv = model_value(kind, e['val'])
+            if kind in ('min', 'max') and A.bound_needs_type_date(e['val']) \
+                    and cdict[f].get('type') != 'date':
+                # tdda reads text bounds as dates only next to "type": "date";
+                # how a date bound is recognised otherwise is not documented
+                mv = ('unknown', None)
+            want = M.sat(kind, mv, col, fam,
                          type_checking=tc, epsilon=epsm,
                          precision=e.get('prec'), present=present)
             if want == UNSPEC:
@@ -451,7 +457,7 @@ REPORT_COLS = [
     {'fam': 'boolobj', 'vals': [None, True]}, {'fam': 'Int64', 'vals': [None, 2]},
     {'fam': 'dt_ns', 'vals': [None, ['t', 946684800 * 10 ** 9]]},
     {'fam': 'cat', 'vals': ['a', 'a']}, {'fam': 'bool', 'vals': [True, False]},
-    {'fam': 'i64', 'vals': []},
+    {'fam': 'u8', 'vals': [0, 255]},
 ]
 NAME_PAIRS = [('a', 'b c'), ('é', 'a'), ('min', '#x'), ('a_min_ok', 'a'),
               ('b c', 'min'), ('#x', 'é')]
